@@ -548,7 +548,7 @@ class JetscapeLoader(BaseLoader):
                 )
         elif isinstance(kwargs["events"], int):
             update = self.num_output_per_event_[kwargs["events"]]
-            self.num_output_per_event_ = np.array(update)
+            self.num_output_per_event_ = np.array([update])
             self.num_events_ = int(1)
         elif isinstance(kwargs["events"], tuple):
             event_start = kwargs["events"][0]
